@@ -518,7 +518,18 @@ var rulePools = &core.Rule{ID: "R04.3", Min: 6,
 				}
 				after := ""
 				reach := core.Reach(put.Block())
+				// the value wrapped into an interface (handed to a reader-taking constructor) is used where that interface is
+				users := append([]ssa.Instruction{}, (*refs)...)
 				for _, u := range *refs {
+					if mi, ok := u.(*ssa.MakeInterface); ok && mi.Referrers() != nil {
+						for _, u2 := range *mi.Referrers() {
+							if u2 != ssa.Instruction(put) {
+								users = append(users, u2)
+							}
+						}
+					}
+				}
+				for _, u := range users {
 					if u == ssa.Instruction(put) || u.Parent() != f {
 						continue
 					}
